@@ -179,6 +179,11 @@ fn string_strategy() -> BoxedStrategy<String> {
         1 => "[0-9]{0,3}[０-９]",
         1 => "\\PC{0,6}",
         1 => "[0-9]{11,14}",
+        // long zero padding, then something that is not a digit, then digits (a parser that trims
+        // zeros first must not re-interpret the rest)
+        2 => ("\\+?0{1,14}", proptest::sample::select(TRICKY.to_vec()), "[0-9]{1,9}").prop_map(|(a, c, b)| format!("{a}{c}{b}")),
+        1 => "\\+?0{8,20}[0-9]{0,10}",
+        1 => "\\+?0{0,14}[+-]{1,2}[0-9]{1,10}",
         // one character that number parsers of other languages skip or accept (control characters,
         // ASCII and Unicode white space, separators, exponent / radix letters) at any position of a number
         4 => ("[0-9]{0,7}", proptest::sample::select(TRICKY.to_vec()), "[0-9]{0,7}").prop_map(|(a, c, b)| format!("{a}{c}{b}")),
